@@ -16,6 +16,7 @@ mod c03;
 pub mod c04;
 mod c05;
 mod c06;
+mod c07;
 mod c17;
 
 use report::{Ctx, Evidence, Tier};
@@ -57,6 +58,7 @@ fn checks() -> Vec<(&'static str, CheckFn)> {
         ("C04", c04::run as CheckFn),
         ("C05", c05::run as CheckFn),
         ("C06", c06::run as CheckFn),
+        ("C07", c07::run as CheckFn),
         ("C17", c17::run as CheckFn),
         ("REFQUAL", refqual::run as CheckFn),
     ]
